@@ -31,6 +31,8 @@ def run(tier, seed):
                          ["the CE timeout is read as: no bytes received for longer than the timeout since establishment (the code restarts it on any received bytes)",
                           "an outbound connection never claims to be a different configured peer; a malformed CEA (no Origin-Host) and a second CER are not judged"],
                          enum_plan=enum_plans(tier))
+    # a CER that must be rejected and the connection closed, under every schedule of reader, writer and I/O loop
+    nc.sched_phase(ck, "C06", "c06_cer_rejected_under_every_schedule", 3 if tier == "thorough" else 2)
     return ck.finish()
 
 
